@@ -25,6 +25,7 @@ type ldFile struct {
 type ldVec struct {
 	Files    []ldFile   `json:"files"`
 	Spelling string     `json:"spelling"`
+	Mode     string     `json:"mode"`
 	Equiv    bool       `json:"equiv"`
 	Keys     [][]string `json:"keys"`
 }
@@ -37,6 +38,8 @@ func ldContent(f ldFile) []byte {
 	}
 	return []byte(strings.Join(ws, " ") + "\n")
 }
+
+const ldForeign = "a document of another directory that was registered by hand and is nobody's business here\n"
 
 func ldKeys(c *Classifier) []string {
 	var ks []string
@@ -69,13 +72,18 @@ func TestVerifLoadReplay(t *testing.T) {
 	if err := os.Chdir(root); err != nil {
 		t.Fatal(err)
 	}
-	n, nontrivial := 0, 0
+	n, nontrivial, seq := 0, 0, 0
+	shardI, shardN := vuEnvInt("VERIF_SHARD", 0), vuEnvInt("VERIF_SHARDS", 1)
 	classes := map[string]int{}
 	emitted := map[string]int{}
 	var samples []json.RawMessage
 	vuVectors(os.Getenv("VERIF_IN"), func(raw []byte) bool {
 		var v ldVec
 		if json.Unmarshal(raw, &v) != nil {
+			return true
+		}
+		seq++
+		if shardN > 1 && seq%shardN != shardI {
 			return true
 		}
 		n++
@@ -85,26 +93,48 @@ func TestVerifLoadReplay(t *testing.T) {
 				samples = append(samples, append([]byte(nil), raw...))
 			}
 		}
+		os.Chdir(root)
 		os.RemoveAll(filepath.Join(root, "corp"))
 		os.MkdirAll(filepath.Join(root, "corp"), 0755)
-		for _, f := range v.Files {
-			d := filepath.Join(append([]string{root, "corp"}, f.Dir...)...)
-			os.MkdirAll(d, 0755)
-			ioutil.WriteFile(filepath.Join(d, f.Name), ldContent(f), 0644)
+		write := func(version string) {
+			for _, f := range v.Files {
+				d := filepath.Join(append([]string{root, "corp"}, f.Dir...)...)
+				os.MkdirAll(d, 0755)
+				ioutil.WriteFile(filepath.Join(d, f.Name), append([]byte(version), ldContent(f)...), 0644)
+			}
 		}
-		dir := map[string]string{"plain": "corp", "trailing": "corp/", "dot": "./corp", "dottrailing": "./corp/", "absolute": filepath.Join(root, "corp")}[v.Spelling]
+		dir := map[string]string{"plain": "corp", "trailing": "corp/", "dot": "./corp", "dottrailing": "./corp/", "absolute": filepath.Join(root, "corp"),
+			"cwd": ".", "cwdslash": "./", "inner": "corp/.", "updown": "corp/../corp"}[v.Spelling]
 		c := NewClassifier(0.8)
 		why := ""
-		func() {
+		load := func() {
 			defer func() {
 				if p := recover(); p != nil {
 					why = fmt.Sprintf("panic: %v", p)
 				}
 			}()
+			if v.Spelling == "cwd" || v.Spelling == "cwdslash" {
+				os.Chdir(filepath.Join(root, "corp"))
+				defer os.Chdir(root)
+			}
 			if e := c.LoadLicenses(dir); e != nil {
 				why = "error: " + e.Error()
 			}
-		}()
+		}
+		switch v.Mode {
+		case "pre": // the keys of the tree, and a foreign one, already hold other documents
+			for _, k := range v.Keys {
+				c.AddContent(k[0], k[1], k[2], []byte("older words registered under this key before the directory was loaded\n"))
+			}
+			c.AddContent("License", "zz", "pre.txt", []byte(ldForeign))
+		case "reload": // the directory was loaded before, then its files were edited
+			write("earlier edition of this file ")
+			load()
+		}
+		write("")
+		if why == "" {
+			load()
+		}
 		class := ""
 		if why != "" {
 			class = "panic-or-error"
@@ -114,12 +144,19 @@ func TestVerifLoadReplay(t *testing.T) {
 				want = append(want, strings.Join(k, "/"))
 			}
 			sort.Strings(want)
+			if v.Mode == "pre" {
+				want = append(want, "License/zz/pre.txt")
+				sort.Strings(want)
+			}
 			got := ldKeys(c)
 			if vuJS(got) != vuJS(want) && !(len(got) == 0 && len(want) == 0) {
 				class, why = "keys", fmt.Sprintf("corpus keys %v, expected %v", got, want)
 			} else {
 				// equivalence with AddContent: same Match results on every file's content
 				c2 := NewClassifier(0.8)
+				if v.Mode == "pre" {
+					c2.AddContent("License", "zz", "pre.txt", []byte(ldForeign))
+				}
 				for _, f := range v.Files {
 					if len(f.Dir) == 2 && strings.HasSuffix(f.Name, "txt") {
 						c2.AddContent(f.Dir[0], f.Dir[1], f.Name, ldContent(f))
@@ -134,10 +171,10 @@ func TestVerifLoadReplay(t *testing.T) {
 			}
 		}
 		if class != "" {
-			classes[class+":"+v.Spelling]++
+			classes[class+":"+v.Spelling+":"+v.Mode]++
 			if emitted[class+v.Spelling] < 2 {
 				emitted[class+v.Spelling]++
-				out.Emit(map[string]interface{}{"kind": "mismatch", "class": class, "spelling": v.Spelling, "why": why, "spec": json.RawMessage(raw)})
+				out.Emit(map[string]interface{}{"kind": "mismatch", "class": class, "spelling": v.Spelling + ":" + v.Mode, "why": why, "spec": json.RawMessage(raw)})
 			}
 		}
 		return true
